@@ -1,10 +1,12 @@
 PROPERTY = "C09"
 LEVEL = "proof"
-LEAN_MODULES = ["CifModel.Props.C09"]
+LEAN_MODULES = ["CifModel.Props.C09", "CifModel.Lemmas.NamesLink"]
 REQUIRED = ["CifModel.C09_idempotent", "CifModel.C09_canon_invariant", "CifModel.C09_normal_form_is_caseless_match",
             "CifModel.C09_norm_of_valid", "CifModel.C09_match_iff", "CifModel.C09_invalid_refused",
-            "CifModel.C09_table_keys_partial", "CifModel.C09_table_keys_case_significant", "CifModel.C09_validity_partial"]
-GEN = ["ErrCodes"]
+            "CifModel.C09_table_keys", "CifModel.C09_table_keys_case_significant", "CifModel.C09_validity",
+            "CifModel.Lemmas.NamesLink.limits_link", "CifModel.Lemmas.NamesLink.spec_limits_link",
+            "CifModel.Lemmas.NamesLink.consts_link", "CifModel.Lemmas.NamesLink.bmpDisallowed_link"]
+GEN = ["ErrCodes", "NamesConsts"]
 FAMILIES = ["valid", "norm"]
 TRUSTED_BASE = [
     "Lean 4.33.0 kernel; axioms propext, Classical.choice, Quot.sound only",
@@ -12,7 +14,10 @@ TRUSTED_BASE = [
     "it is the hypothesis structure Laws (nfd_nfc, nfc_nfd, fold_stable), tested against the real ICU on every input of family norm",
     "harness/x_norm.c (assembles NFC(foldCase(NFD x)) from unorm2 / u_strFoldCase, independent of the library), harness/x_valid.c, "
     "tools/gen/norm.py, tools/gen/valid.py (oracles restating the property on the implementation's observations)",
-    "hand-written models Model/Names.lean, Model/Normalize.lean, tied to src/utils.c and src/map.c by the families valid and norm",
+    "hand-written models Model/Names.lean, Model/Normalize.lean, tied to src/utils.c and src/map.c by the families valid and norm, and "
+    "by tools/translate_names.py: CIF_LINE_LENGTH, the code/item reserve of cif_is_valid_name, the whitespace bound, surrogate ranges, "
+    "non-character masks and the BMP test of cif_has_disallowed_chars are re-extracted on every run (Gen/NamesConsts.lean) and linked to "
+    "the model by Lemmas/NamesLink.lean (the translated character test compared on all 65 536 units by kernel evaluation)",
     "SQLite's uniqueness of the normalised name columns is modelled as a list of present normal forms (createNamed / findNamed); "
     "observed through the API by `norm match`",
 ]
@@ -22,18 +27,13 @@ ASSUMPTIONS = [
     "ICU calls do not fail (allocation / internal errors are not modelled)",
     "strings are NUL-free lists of UTF-16 code units",
 ]
-PARTIAL = [
-    "C09_validity_partial: proved for every string without surrogate code units; the surrogate branches (pairs, unpaired units, "
-    "supplementary non-characters; C09_validity_full) are covered by the exhaustive `valid` correspondence only",
-    "C09_table_keys_partial: proved for a key whose NFC form is new to the table; the overwrite-in-place branch "
-    "(C09_table_keys_full) is covered by the `norm map` correspondence only",
-]
+PARTIAL = []
 LEVEL_TEXT = ("Proof relative to stated ICU laws: cif_normalize idempotent and invariant under canonical equivalence, equal normal "
               "forms = Unicode canonical caseless match, found/duplicate iff normal forms coincide, invalid names refused with the "
-              "entry point's code, table keys matched by NFC only — for all UnicodeOps satisfying Laws; validity = CIF rules for all "
-              "surrogate-free strings. Model tied to the code by differential execution (valid: every BMP unit, every disallowed "
+              "entry point's code, table keys matched by NFC only — for all UnicodeOps satisfying Laws; validity = the CIF rules on code points for EVERY string of 16-bit units "
+              "(surrogate pairs, unpaired surrogates, supplementary non-characters, limits 2048 / 2043). Model tied to the code by differential execution (valid: every BMP unit, every disallowed "
               "class at every position, length limits, API codes; norm: cif_normalize vs ICU primitives on all interesting code points / "
               "all 1 114 112 in the thorough tier, sequences, API matching, table and packet keys), laws tested against ICU.")
-LEVEL_NOTE = ("Trusted: Lean kernel; hand-written models + correspondence; the ICU laws (tested, not proved). Two theorems ship as "
-              "_partial (surrogate branches of validity; overwrite branch of table set) with the full statements kept as defs.")
+LEVEL_NOTE = ("Trusted: Lean kernel; hand-written models + correspondence + link theorems over regenerated constants; the ICU laws "
+              "(tested against ICU, not proved). No _partial theorem.")
 TECHNIQUE = "Lean 4 proof about an executable model parameterised by ICU + differential execution against the real code and against ICU primitives"
